@@ -94,6 +94,20 @@ func newRxEnv(nEed, nEnv int) *rxEnv {
 }
 
 func (e *rxEnv) feedPacket(tok string) bool {
+	if tok == "snd" {
+		// the client sends a message while the response is still arriving (a server may start answering
+		// before the last packet of the request has left): sending changes nothing on the receive side
+		pkg := tds.NewTokenlessPackage()
+		pkg.Data.Write([]byte("select 1--"))
+		ctx, cancel := context.WithTimeout(context.Background(), 500*time.Millisecond)
+		defer cancel()
+		if err := e.ch.SendPackage(ctx, pkg); err != nil {
+			e.mu.Lock()
+			e.hooks = append(e.hooks, "SNDERR:"+err.Error())
+			e.mu.Unlock()
+		}
+		return true
+	}
 	f := strings.Split(tok, ":")
 	if len(f) != 2 {
 		return false
@@ -246,7 +260,7 @@ func randomResponse(rng *rand.Rand, final bool) []respPkg {
 			if rng.Intn(6) == 0 {
 				sz = []string{"0", "8", "65536", "-512", "1k", ""}[rng.Intn(6)]
 			}
-			r = append(r, rEnv([3]string{"\x04", sz, "512"}, [3]string{"\x03", "utf8", ""}))
+			r = append(r, rEnv([3]string{"\x04", sz, "512"}, genEnvMember(rng)))
 		case 5:
 			r = append(r, rDone([]int{1, 17, 0x11, 9, 3}[rng.Intn(5)], rng.Intn(50)))
 		case 6:
@@ -343,7 +357,13 @@ func rxOracleC02(line, out string) string {
 	// reference is the same messages, each in a single packet, through the real code
 	var ref []string
 	var body []byte
-	for i, t := range f[3:] {
+	var toks []string
+	for _, t := range f[3:] {
+		if t != "snd" { // a send in mid-response changes nothing on the receive side: same reference
+			toks = append(toks, t)
+		}
+	}
+	for i, t := range toks {
 		p := strings.Split(t, ":")
 		if len(p) == 2 && (p[0] == "h" || p[0] == "H") && len(body) == 0 {
 			ref = append(ref, t) // a header-only packet between messages stays where it is
@@ -356,7 +376,7 @@ func rxOracleC02(line, out string) string {
 		if p[0] == "b1" {
 			ref = append(ref, "b1:"+hx(body))
 			body = nil
-		} else if i == len(f[3:])-1 {
+		} else if i == len(toks)-1 {
 			return "" // the last message is incomplete: not judged here (C14)
 		}
 	}
@@ -368,7 +388,43 @@ func rxOracleC02(line, out string) string {
 	return ""
 }
 
+// withMidSends wraps an emit: one case in four with at least two packets is emitted a second time with
+// `snd` tokens between its packets — the client sends a message while the response is still arriving (a
+// server may start to answer before the send call has returned). Nothing on the receive side may change.
+func withMidSends(rng *rand.Rand, first int, emit func(Case)) func(Case) {
+	r := rand.New(rand.NewSource(rng.Int63()))
+	return func(c Case) {
+		emit(c)
+		f := strings.Fields(c.Line)
+		if len(f) < first+2 || r.Intn(4) != 0 {
+			return
+		}
+		var pos []int
+		for i := first + 1; i < len(f); i++ {
+			if strings.Contains(f[i-1], ":") && strings.Contains(f[i], ":") {
+				pos = append(pos, i) // between two packets
+			}
+		}
+		if len(pos) == 0 {
+			return
+		}
+		at := map[int]bool{pos[r.Intn(len(pos))]: true}
+		if r.Intn(3) == 0 {
+			at[pos[r.Intn(len(pos))]] = true
+		}
+		var out []string
+		for i, t := range f {
+			if at[i] {
+				out = append(out, "snd")
+			}
+			out = append(out, t)
+		}
+		emit(Case{Line: strings.Join(out, " "), Kind: c.Kind + "+midsend"})
+	}
+}
+
 func c02Gen(tier string, rng *rand.Rand, emit func(Case)) {
+	emit = withMidSends(rng, 3, emit)
 	nresp, nrand := 25, 40
 	if tier == "thorough" {
 		nresp, nrand = 150, 300
@@ -731,7 +787,7 @@ func init() {
 		FindingKey: func(line, out, clause string) string { return clause },
 		Nontrivial: func(line, out string) bool { return strings.Count(line, " b") >= 2 || strings.HasPrefix(line, "rd ") },
 		NoShrink:   true, Timeout: 30 * time.Second, Timed: true,
-		Rule: "channel layer: random responses (DONE variants, EED info/non-info, ENVCHANGE incl. PACKSIZE, MSG, RETURNSTATUS, LOGINACK; 0..2 hooks of each kind) fed to the real Channel.WritePacket whole, with every single cut, all pairs of cuts of short responses, random cut sets, one-byte bodies, all 2^(n-1) cut sets of short streams, interleaved header-only packets, histories of 2..3 responses on one channel where the later ones are the fragmented ones, and result / parameter sets (format, 1..3 data packages over the data types of the fields group, messages between format and data; every single cut of short ones, random cut sets) — compared with the whole-response run of the real code (oracle) and with the Lean receive model; packet layer: the complete stream through the real reader goroutine with read schedules that split headers and bodies. Non-trivial = at least two packets",
+		Rule:        "channel layer: random responses (DONE variants, EED info/non-info, ENVCHANGE incl. PACKSIZE, MSG, RETURNSTATUS, LOGINACK; 0..2 hooks of each kind) fed to the real Channel.WritePacket whole, with every single cut, all pairs of cuts of short responses, random cut sets, one-byte bodies, all 2^(n-1) cut sets of short streams, interleaved header-only packets, histories of 2..3 responses on one channel where the later ones are the fragmented ones, and result / parameter sets (format, 1..3 data packages over the data types of the fields group, messages between format and data; every single cut of short ones, random cut sets) — compared with the whole-response run of the real code (oracle) and with the Lean receive model; packet layer: the complete stream through the real reader goroutine with read schedules that split headers and bodies. Non-trivial = at least two packets",
 		Assumptions: []string{"responses are built from the package kinds of the codec registry (Basic, Cursor, Fields without BLOB columns)", "net.Conn read semantics for the packet layer"},
 	})
 }
